@@ -189,7 +189,8 @@ def value_alternatives(e, fnode, before, conds=(), depth=4):
             c = c + ((x, False),)
         return out + value_alternatives(e.values[-1], fnode, before, c, depth)
     if isinstance(e, ast.Name) and depth:
-        params = {a.arg for a in fnode.args.posonlyargs + fnode.args.args + fnode.args.kwonlyargs}
+        params = {a.arg for a in fnode.args.posonlyargs + fnode.args.args + fnode.args.kwonlyargs} | \
+            ({fnode.args.vararg.arg} if fnode.args.vararg else set()) | ({fnode.args.kwarg.arg} if fnode.args.kwarg else set())
         defs = [d for d in walk_local(fnode) if isinstance(d, ast.Assign) and len(d.targets) == 1 and isinstance(d.targets[0], ast.Name) and d.targets[0].id == e.id and pos(d) < pos(before)]
         if defs:
             out = []
